@@ -62,14 +62,10 @@ pub fn run(report: &Report, thorough: bool) -> Evidence {
                 jobs.push((bits | 1 << 9, 4));
             }
         }
-        // suggestions on: every key compiles a regex (~150 us), so L = 2 for the 16 settings and, thorough
-        // only, L = 3 for old vowel-sign order off / on with the other helpers on
+        // suggestions on: every key compiles a regex (~150 us; one L = 3 search is ~20 min on one thread), so
+        // L = 2 for the 16 settings in both tiers
         for b in 0..16u32 {
             jobs.push((1 << 8 | b, 2));
-        }
-        if thorough {
-            jobs.push((1 << 8 | 0b0111, 3));
-            jobs.push((1 << 8 | 0b1111, 3));
         }
         par_for(
             jobs.len(),
